@@ -77,6 +77,10 @@ Inductive strategy := Largest | Random.
 Record request := {
   r_acct : N;
   r_scope : option kscope;           (* coinSelectKeyScope; None = any scope *)
+  r_change_scope : option kscope;    (* changeKeyScope (WithCustomChangeScope; by default = r_scope): decides
+                                        the address of the CHANGE output only - no definition below reads it:
+                                        the candidates, the eligible set and the sign / skip decision depend
+                                        on [r_scope] alone *)
   r_minconf : Z;
   r_rate : Z;                        (* feeSatPerKb *)
   r_strategy : strategy;
